@@ -230,7 +230,9 @@ def check_roman(res):
 def _units():
     from chempy.units import default_units as u
 
-    return [("m/s", u.m / u.s), ("mol/dm3", u.mol / u.dm3), ("1/M/s", 1 / u.molar / u.s), ("kg*m2/s2", u.kg * u.m ** 2 / u.s ** 2), ("J/mol/K", u.joule / u.mol / u.kelvin), ("1/s", 1 / u.s)]
+    return [("m/s", u.m / u.s), ("mol/dm3", u.mol / u.dm3), ("1/M/s", 1 / u.molar / u.s), ("kg*m2/s2", u.kg * u.m ** 2 / u.s ** 2), ("J/mol/K", u.joule / u.mol / u.kelvin), ("1/s", 1 / u.s),
+            # dimensionless but scaled units, as they come out of dividing two quantities written with different prefixes
+            ("cm/m", u.cm / u.m), ("mM/M", u.mM / u.molar), ("ms/s", u.ms / u.s)]
 
 
 def check_quantity(res, xs, p, fmt, uname, unit):
@@ -292,6 +294,36 @@ def check_uncertain_quantity(res, xs, xes, p, fmt, pair, how):
     res.outcomes["uncertain-quantity-ok" if ok else "uncertain-quantity-WRONG"] += 1
     if not ok:
         res.violation("C20|number_to_scientific_%s|uncertain-quantity|%s" % (fmt, how), "(%s +- %s) %s printed in %s (%s, %d digits) as %r; the converted numbers print as %r" % (xs, xes, ua, ub, how, p, got, want), case, got, want)
+
+
+def check_callable_fmt(res, xs, fmt, pair):
+    """fmt given as a callable (documented: int or callable) together with a requested unit: the callable formats the value as
+    converted to that unit"""
+    from chempy import units as U
+
+    ua, ub, f = UQ_PAIRS[pair]
+    qa, qb = getattr(U.default_units, ua), getattr(U.default_units, ub)
+    x = float(xs)
+    res.states += 1
+    res.transitions += 1
+    res.evaluations += 1
+    res.nontrivial += 1
+    case = dict(layer="CF", x=xs, fmt=fmt, pair=pair)
+    unit_fmt = {"latex": U.latex_of_unit, "unicode": U.unicode_of_unit, "html": U.html_of_unit}[fmt]
+    sep = "\\," if fmt == "latex" else " "
+    cb = lambda v: "%.3f" % v  # (no exponent form: an 'e' in the text would be re-typeset as a power of ten)
+    try:
+        got = _fn(fmt)(x * qa, unit=qb, fmt=cb)
+        want = cb(x * f) + sep + unit_fmt(qb)
+        plain = _fn(fmt)(x, fmt=cb)
+    except Exception as e:
+        res.outcomes["callable-fmt-RAISES"] += 1
+        res.violation("C20|number_to_scientific_%s|callable-fmt|raises" % fmt, "printing %s %s in %s with a callable fmt raised %s" % (xs, ua, ub, type(e).__name__), case, "EXC %s" % type(e).__name__, None)
+        return
+    ok = got == want and plain == cb(x)
+    res.outcomes["callable-fmt-ok" if ok else "callable-fmt-WRONG"] += 1
+    if not ok:
+        res.violation("C20|number_to_scientific_%s|callable-fmt" % fmt, "%s %s printed in %s with fmt=<'%%.3f' callable> as %r (plain number: %r); the converted value formats as %r" % (xs, ua, ub, got, plain, want), case, got, want)
 
 
 def check_param(res, mag, uname, unit, order, fmtname):
@@ -497,6 +529,10 @@ def run_chunk(chunk, tier):
                     for fmt in FMTS:
                         check_quantity(res, xs, p, fmt, uname, unit)
             res.symbols[uname] += 1
+        for xs in ("1.5", "315.25", "-7.25e4", "1.4142e-7"):
+            for fmt in FMTS:
+                for pair in range(len(UQ_PAIRS)):
+                    check_callable_fmt(res, xs, fmt, pair)
         for xs, xes in (("315.0", "1.79e-3"), ("2.5", "0.125"), ("1.4142e-7", "3e-10"), ("-7.25e4", "12.5")):
             for p in (1, 2):
                 for fmt in FMTS:
@@ -550,6 +586,8 @@ def replay(case):
 
         pool = dict([("1/s", 1 / u.s), ("1/min", 1 / u.minute), ("1/hour", 1 / u.hour), ("1/ms", 1 / u.ms)])
         check_param_system(res, [(n, pool[n]) for n in case["units"]], case["fmt"])
+    elif L == "CF":
+        check_callable_fmt(res, case["x"], case["fmt"], case["pair"])
     elif L == "UQ":
         check_uncertain_quantity(res, case["x"], case["xe"], case["p"], case["fmt"], case["pair"], case["how"])
     elif L == "Q":
